@@ -97,7 +97,7 @@ def gen(seed, tier="quick"):
             "sim/mag_incl": incl,
             "sim/mag_decl": decl,
             "mrp/mag_decl": decl,
-            "sim/mag_str": knobs.uniform(0.05, 0.65),
+            "sim/mag_str": knobs.choice([0.1, knobs.uniform(0.05, 0.15), knobs.uniform(0.05, 0.65)]),  # shipped 0.1; weak fields matter for gates in field units
             "sim/g": g_cfg,
             "mrp/g": g_cfg,
             "sim/enable_noise": False,
